@@ -178,6 +178,17 @@ fn entries() -> Vec<Entry> {
         Entry { name: "DryocStream::pull_to_vec", typed_prefix: 0, auth: au_stream,
             run: |c, x| { let (d, _) = init_pair(&c.key, &c.header, 1); let mut o: DryocStream<Pull> = DryocStream::verif_from_state(d);
                 r2b(o.pull_to_vec(&x.to_vec(), None)) } },
+        // Untrusted.tla family "stream", receiver state other than a freshly initialised one: a state object that was never
+        // given a key (State::new / Default) or that was wiped (Zeroize) still answers Ok or Err to whatever bytes arrive
+        Entry { name: "crypto_secretstream_pull (state never initialised)", typed_prefix: 0, auth: |_c, _l, _r| None,
+            run: |_c, x| { let mut d = cs::State::new(); let mut m = vec![0u8; x.len().saturating_sub(ABYTES)]; let mut t = 0u8;
+                r2b(cs::crypto_secretstream_xchacha20poly1305_pull(&mut d, &mut m, &mut t, x, None)) } },
+        Entry { name: "crypto_secretstream_pull (state wiped after init_pull)", typed_prefix: 0, auth: |_c, _l, _r| None,
+            run: |c, x| { use zeroize::Zeroize; let (mut d, _) = init_pair(&c.key, &c.header, 1); d.zeroize(); let mut m = vec![0u8; x.len().saturating_sub(ABYTES)]; let mut t = 0u8;
+                r2b(cs::crypto_secretstream_xchacha20poly1305_pull(&mut d, &mut m, &mut t, x, None)) } },
+        Entry { name: "DryocStream::pull_to_vec (stream wiped after init_pull)", typed_prefix: 0, auth: |_c, _l, _r| None,
+            run: |c, x| { use zeroize::Zeroize; let mut o = DryocStream::init_pull(&StackByteArray::from(&c.key), &StackByteArray::from(&c.header)); o.zeroize();
+                r2b(o.pull_to_vec(&x.to_vec(), None)) } },
         Entry { name: "crypto_sign_open", typed_prefix: 0, auth: au_signed,
             run: |c, x| { let mut m = vec![0u8; x.len().saturating_sub(64)]; r2b(csg::crypto_sign_open(&mut m, x, &c.sign_pk)) } },
         Entry { name: "crypto_sign_verify_detached", typed_prefix: 64, auth: au_sig_msg,
